@@ -173,7 +173,29 @@ pub fn check_repeats(ctx: &mut Ctx, src: &str, stdin: &[u8], reps: usize, origin
     let mut first: Option<Observation> = None;
     let mut raw_orders: Vec<Vec<Vec<String>>> = Vec::new();
     let do_exec = origin != "lint_dense";
+    // one Linter value used for every repetition: a run must not depend on the runs before it
+    let mut reused = mon::ReusedLinter::new();
+    let mut reused_first: Option<String> = None;
     for i in 0..reps {
+        if let Ok(prog) = mon::parse_quiet(src) {
+            let got = match reused.run(&prog) {
+                Ok(d) => format!("{:?}", d),
+                Err(p) => format!("PANIC {}", p.signature()),
+            };
+            ctx.count("lint_runs_with_a_reused_linter");
+            match &reused_first {
+                None => reused_first = Some(got),
+                Some(f) if *f != got => {
+                    ctx.violation(
+                        "repeat_differs:lint_diagnostics_of_a_reused_linter",
+                        &format!("run 1: {}\nrun {}: {}", f.chars().take(400).collect::<String>(), i + 1, got.chars().take(400).collect::<String>()),
+                        case_src_in(src, stdin).with("origin", Json::s(origin)),
+                    );
+                    return;
+                }
+                _ => {}
+            }
+        }
         ctx.eval();
         let (obs, orders) = match observe_opt(src, stdin, ctx, do_exec) {
             Some(x) => x,
